@@ -292,6 +292,14 @@ def gc_on_open(P, R, L):
                 "(also when the last WAL was re-used), so the replayed WALs become garbage",
                 "stores of wal_file_number: %d, from curr_wal_file_number: %d" % (len(st), len(cur)))
     R.floor("ORD-16", "log_and_apply sites in DB::open", len(la_open), 1)
+    # the opener's garbage collection runs before background work may start: its delete list is computed under the mutex
+    # but the files are unlinked without it, so a compaction that was scheduled earlier could re-issue an orphan's number
+    sched = [c for c in o.calls() if not o.is_cleanup(c.bb) and P.site_reaches(c, lambda x: x.name == "compaction::worker::CompactionWorker::schedule_task", True)
+             and c.name != K.REMOVE_OBSOLETE]
+    sched = [c for c in sched if c.name == "compaction::worker::CompactionWorker::schedule_task" or not P.site_reaches(c, lambda x: x.name == K.REMOVE_OBSOLETE, True)]
+    okg = bool(rof) and all(o.must_pass(c.bb, through_nodes=[r.bb for r in rof]) for c in sched)
+    R.check("ORD-16", "db::DB::open|gc-before-background-work", okg, K.where(o),
+            "no compaction is scheduled by DB::open before its remove_obsolete_files ran", "scheduling sites %s" % [c.line for c in sched])
     cm = P.body(K.COMPACT_MEMTABLE)
     if cm is not None:
         R.analysed(cm)
@@ -315,6 +323,9 @@ def run(P, R, L):
     pair1(P, R, L)
     K.ord3_tables(P, R, L, rule="ORD-13")
     K.cache_eviction(P, R, L)
+    R.clause("ORD-5", "CURRENT never names a manifest the error path of log_and_apply deletes: the edit is appended to the new manifest before CURRENT is switched")
+    from .c02 import ord5_manifest_before_current
+    ord5_manifest_before_current(P, R, L)
     R.clause("ROLE-4", "the WAL numbers recorded in every version edit come from the version set's own counters (they decide which WALs are garbage)")
     K.role4_counters(P, R, L)
     R.not_decided += ["directory contents for a concrete history", "crash-orphan collection beyond the guards"]
